@@ -288,6 +288,17 @@ func genSchema(repo string) *genFile {
 	g.pf("def osmUnmarshalJSONCases : List String := %s\n", leanStrList(caseLabels(p.funcDecl("OSM", "UnmarshalJSON"))))
 	if sp, err := loadPkg(repo + "/osmxml"); err == nil {
 		g.pf("def scannerCases : List String := %s\n", leanStrList(caseLabels(sp.funcDecl("Scanner", "Scan"))))
+		// what the scanner's dispatch switches on (every switch with string case labels in Scan)
+		var tags []string
+		if fd := sp.funcDecl("Scanner", "Scan"); fd != nil {
+			ast.Inspect(fd, func(n ast.Node) bool {
+				if sw, ok := n.(*ast.SwitchStmt); ok && sw.Tag != nil {
+					tags = append(tags, exprText(sw.Tag))
+				}
+				return true
+			})
+		}
+		g.pf("def scannerSwitchTags : List String := %s\n", leanStrList(tags))
 		// settings the scanner gives its xml.Decoder (none = the strict default that xml.Unmarshal uses too)
 		var settings []string
 		for _, fn := range sp.sortedFiles() {
